@@ -63,6 +63,9 @@ def run(ctx):
     ctx.rule("R5", "scratch-buffer hygiene: reusable per-object buffers are re-initialised on every fetch (no state leaks between crossings/trajectories)")
     ctx.rule("R6", "the adaptive sub-step controller sees the coupling at both ends of the nuclear step")
     ctx.rule("R7", "Tully model surfaces: adiabatic gradients are the derivatives of the adiabatic energies, the coupling is d(theta)/dx, diabatic derivatives match their functions (expression algebra)")
+    ctx.rule("R8", "per-trajectory isolation of sizes and active states: no per-molecule quantity is taken from row 0 for the whole batch without a uniformity fact (representative-row rule)")
+    from .c05 import check_rep_rows
+    check_rep_rows(ctx, "R8")
     _r7_tully_models(ctx, repo)
     _r6_controller(ctx, nad)
     _r5(ctx, nad)
